@@ -201,7 +201,8 @@ class C18(Machine):
                               "%s: two runs from equal generator states differ (params %s): %s vs %s" % (
                                   sim, _params(st), str(canon1)[:200], str(canon2)[:200]))
             rec.ev("sim", sim, canon1 if len(str(canon1)) < 400 else hash_str(canon1))
-            rec.nontrivial((sim, st["ntips"] > 8, st["death"] > 0, bool(st["adversarial"]), sorted(self._probes(kind, obj, st))))
+            rec.nontrivial((sim, st["ntips"], round(st["death"] / st["birth"], 2), st["adversarial"], st.get("ns_fill") if st["with_namespace"] else None,
+                            st["pop_size"], sorted(self._probes(kind, obj, st))))
         del keep[:]
 
     def _probes(self, kind, obj, st):
